@@ -185,22 +185,19 @@ Lemma parse_line_total line : 53 <= length line -> is_panic (parse_line line) = 
 Proof.
   intros Hl. unfold parse_line.
   destruct (slice_to_cases line 1) as [[_ (t & E & Ht)]|[H' _]]; [|lia]. rewrite E. cbn [bind].
-  assert (S1 : exists a, sl line 50 53 = Ok a).
-  { destruct (sl_cases line 50 53 ltac:(lia)) as [[_ (a & -> & _)]|[H' _]]; [eauto|lia]. }
-  assert (S2 : exists a, sl line 4 20 = Ok a).
-  { destruct (sl_cases line 4 20 ltac:(lia)) as [[_ (a & -> & _)]|[H' _]]; [eauto|lia]. }
   assert (S3 : exists a, sl line 1 3 = Ok a).
   { destruct (sl_cases line 1 3 ltac:(lia)) as [[_ (a & -> & _)]|[H' _]]; [eauto|lia]. }
   assert (S4 : exists a, sl line 3 6 = Ok a).
   { destruct (sl_cases line 3 6 ltac:(lia)) as [[_ (a & -> & _)]|[H' _]]; [eauto|lia]. }
   assert (S5 : exists a, go_slice line None (Some 2) = Ok a).
   { destruct (slice_to_cases line 2) as [[_ (a & -> & _)]|[H' _]]; [eauto|lia]. }
-  destruct S1 as (a1 & ->), S2 as (a2 & ->), S3 as (a3 & ->), S4 as (a4 & ->), S5 as (a5 & ->).
+  destruct S3 as (a3 & ->), S4 as (a4 & ->), S5 as (a5 & ->).
   destruct t as [|b [|b' t']]; cbn [bind is_panic]; try reflexivity; try (cbn in Ht; lia).
   repeat match goal with
   | |- context [match ?x with N0 => _ | Npos _ => _ end] => destruct x; cbn [bind is_panic]; try reflexivity
   | |- context [match ?x with xH => _ | xO _ => _ | xI _ => _ end] => destruct x; cbn [bind is_panic]; try reflexivity
   end.
+  all: try (match goal with |- context [if ?c then _ else _] => destruct c end; reflexivity).
 Qed.
 
 Lemma trim_suffix_space_length s : length (trim_suffix_space s) <= length s.
